@@ -12,6 +12,8 @@ CLAIMED = {
 }
 CLAIMED['C02'] = ('the /certgen/ endpoint executed end-to-end from SSA down to the library signing calls, which capture the certificate as terms; for every user name, URL, submitted key bytes, configured extension list (<=1 quick / <=3 thorough), realm/CA shape z3 decides: principal/CN = admitted user, key = parse(submitted bytes) that passed the strength predicate, user type / non-CA / ClientAuth, extensions = 5 standard + configured expanded for that user, right signer and issuer; and the same for a second request on the post-state of the first',
     'library parsers, shell.Expand and signing calls are uninterpreted functions of their actual arguments; that signatures verify under the published keys is outside (x/crypto arithmetic); checkAuth admits an arbitrary user (C01/C06)')
+CLAIMED['C10'] = ('the strength predicate executed from SSA (crypto/rsa Size from its own SSA) over every dynamic key type x RSA bit length 0..16384 x every exponent x every parser-producible curve; every issuing handler (SSH, X.509, Kubernetes, automation, refresh, cloud-role) executed end-to-end: z3 decides that each signing sink receives a key term for which the predicate returned true, weak keys get a 4xx status, and no path panics; the address-extension decoder over every asn1-well-formed bit string (BitLength 0..64)',
+    'third-party parsers are uninterpreted functions (their byte-level robustness is a fuzzer\'s subject, outside this technique); counterexamples of the kernels are replayed natively')
 NA_REASON = {}
 checks = []
 for pid in ALL:
